@@ -2,6 +2,7 @@ import VC2.Gen.Dispatch
 import VC2.Model.BitIODriver
 import VC2.Model.WaveletDriver
 import VC2.Model.ConstraintDriver
+import VC2.Model.SymReDriver
 open VC2 VC2.Gen
 
 def parseInts (ws : List String) : Option (List Int) :=
@@ -27,6 +28,7 @@ def step (line : String) : String :=
   | "dd" :: rest => VC2.Model.BitIO.handleIO "dd" rest
   | "wr" :: rest => VC2.Model.BitIO.handleIO "wr" rest
   | "wt" :: rest => VC2.Model.Wavelet.handleWt rest
+  | "re" :: rest => VC2.Model.SymRe.handleRe rest
   | "vs" :: rest => VC2.Model.Constraint.handleVs rest
   | "ct" :: rest => VC2.Model.Constraint.handleCt rest
   | _ => "bad-op"
